@@ -204,6 +204,22 @@ def shard(ctx, si, payload):
             if not (na == nb and ea_ == eb_ and np.array_equal(np.asarray(ga.losPathLen), lb_)):
                 ctx.violation("shared-grid", f"altitude {alt} km: step {j} of a scan (all {len(gas)} objects built first, one array of nodes re-used): geometry-only integral {ea_!r}; an object built, thrown and integrated on its own with a private copy of the same nodes gives {eb_!r} ({na} vs {nb} events kept; node array {'changed' if shared.tobytes() != nodes0.tobytes() else 'unchanged'})", dict(wit, step=j))
                 break
+        # ---- all objects of the scan are alive and thrown: integrating them again, last to first, gives each
+        #      object's own value (state shared between objects, seeded C01-17)
+        for j in reversed(range(len(gas))):
+            if len(refs) != len(gas):
+                break
+            try:
+                ga = gas[j]
+                na = int(np.sum(ga.event_mask))
+                ea_ = ga.mcintegral(np.ones(na), -1.0, np.ones(na), 0.5, 1.0, 1.0)[1]
+            except Exception as e:
+                ctx.exception("raises", f"mcintegral of object {j} of a scan raised after the other objects were used", e, wit)
+                break
+            ctx.count("shared-grid")
+            if ea_ != refs[j][1]:
+                ctx.violation("shared-grid", f"altitude {alt} km: object {j} of a scan integrated again after the other objects were thrown and integrated: {ea_!r}; on its own {refs[j][1]!r}", dict(wit, step=j))
+                break
         # ---- quadrature against the independent aperture
         if payload["sobol_m"] and k < payload["nquad"]:
             from scipy.stats import qmc
@@ -315,9 +331,48 @@ def faces(ctx):
                 ctx.violation("identity", f"altitude {alt} km, annulus reaching the sub-detector point: the event at u = ({u1}, {u2}, 0.5, {u4!r}) (nadir; emergence {beta:.2f} deg) has weight x normalisation {w!r}; integrand x Jacobian is {want!r}", {"altitude": alt, "u": [u1, u2, 0.5, u4], "whole_disc": True})
 
 
+def seams(ctx):
+    """Sums are additive over a split of the thrown events, whatever the number of kept events - in particular
+    when it is an exact multiple of a block size a summation routine may use (8192, 16384, 65536; seeded
+    C01-16: the remainder `x[-0:]` of a block-wise sum is the whole array). The kept count is steered onto the
+    seam by cutting the node array where the running count of kept events reaches it (whether an event is
+    kept does not depend on the other events of the throw: C11)."""
+    from nuspacesim.simulation.geometry.region_geometry import RegionGeom
+
+    rng = ctx.subrng("c01-seams")
+    for alt, limb, cone, az in ((525.0, None, 3.0, 360.0), (33.0, 0.5, 20.0, 90.0)):
+        cfg = make_cfg(alt, limb, cone, az)
+        wit = {"altitude": alt, "cone_deg": cone}
+        u = rng.uniform(0, 1, (4, ctx.pick(60_000, 200_000)))
+        try:
+            g = RegionGeom(cfg)
+            g.throw(u.copy())
+            cum = np.cumsum(np.asarray(g.event_mask, bool))
+            for target in (8192, 8193, 16384, 3 * 8192, 65536):
+                if cum[-1] < target:
+                    continue
+                n = int(np.searchsorted(cum, target)) + 1
+                vals = []
+                for a, b in ((0, n), (0, n // 2), (n // 2, n)):
+                    gg = RegionGeom(cfg)
+                    gg.throw(u[:, a:b].copy())
+                    nk = int(np.sum(gg.event_mask))
+                    vals.append((nk, b - a, float(gg.mcintegral(np.ones(nk), -1.0, np.ones(nk), 0.5, 1.0, 1.0)[1])))
+                ctx.count("seams")
+                whole, h1, h2 = vals
+                lhs, rhs = whole[2] * whole[1], h1[2] * h1[1] + h2[2] * h2[1]
+                if whole[0] != target or h1[0] + h2[0] != target or not abs(lhs - rhs) <= 1e-10 * abs(rhs):
+                    ctx.violation("seams", f"altitude {alt} km: {whole[1]} thrown events of which exactly {whole[0]} are kept: geometry-only integral x thrown = {lhs!r}; the two halves ({h1[0]} + {h2[0]} kept) add up to {rhs!r}", dict(wit, kept=target))
+                ctx.distinct.add(("seam", alt, target))
+        except Exception as e:
+            ctx.exception("raises", "throw / mcintegral raised in the block-seam monitor", e, wit)
+
+
 def run(ctx):
     faces(ctx)
     ctx.require("faces")
+    seams(ctx)
+    ctx.require("seams")
     sd = 100 * ctx.seed
     fr = [(525.0, None, 3.0, 360.0, 11 + sd), (33.0, 0.5, 3.0, 360.0, 12 + sd)]
     if ctx.thorough():
